@@ -487,6 +487,11 @@ func HasAncestor(node *html.Node, ancestorTagNames ...string) bool {
 
 // IsProbablyVisible determines if a node is visible.
 func IsProbablyVisible(node *html.Node) bool {
+	// Scripts and styles are never content, whatever display their inline style claims.
+	if tagName := dom.TagName(node); tagName == "script" || tagName == "style" {
+		return false
+	}
+
 	displayStyle := GetDisplayStyle(node)
 	styleAttr := dom.GetAttribute(node, "style")
 	nodeAriaHidden := dom.GetAttribute(node, "aria-hidden")
